@@ -1,1 +1,365 @@
-// harness
+// Harnesses for src/write.rs: record serialisation (C02, C08), extra-data validation and
+// alignment (C17), writer state machine (C12), API-level write->read (C01), append (C13),
+// raw copy (C14), fault injection (C11).
+#[allow(unused_imports)]
+use crate::verif_kit::*;
+#[allow(unused_imports)]
+use std::io::{Read, Seek, SeekFrom, Write};
+
+const THR: u64 = 0xFFFF_FFFF;
+
+// =============================================================================================
+// Unit level: one record at a time, judged by an APPNOTE-offset reference ("strict reader")
+// =============================================================================================
+
+fn name_is_ascii(b: &[u8]) -> bool {
+    let mut i = 0;
+    while i < b.len() {
+        if b[i] >= 0x80 {
+            return false;
+        }
+        i += 1;
+    }
+    true
+}
+
+macro_rules! c02_local_header {
+    ($name:ident, $mk:expr, $nlen:expr) => {
+        #[kani::proof]
+        #[kani::unwind(10)]
+        fn $name() {
+            const NLEN: usize = $nlen;
+            let file = any_zfd($mk, Vec::new());
+            let mut sink = Sink::<64>::new();
+            let r = write_local_file_header(&mut sink, &file);
+            assert!(r.is_ok());
+            assert!(!sink.overflow);
+            let b = &sink.buf;
+            let nb = file.file_name.as_bytes();
+            assert_eq!(nb.len(), NLEN);
+            assert_eq!(le32(b, 0), SIG_LOCAL);
+            let flags = le16(b, 6);
+            assert_eq!(flags & (1 << 11) != 0, !name_is_ascii(nb));
+            assert_eq!(flags & 1 != 0, file.encrypted);
+            assert_eq!(flags & !((1 << 11) | 1), 0);
+            #[allow(deprecated)]
+            let m = file.compression_method.to_u16();
+            assert_eq!(le16(b, 8), m);
+            assert_eq!(le16(b, 10), file.last_modified_time.timepart());
+            assert_eq!(le16(b, 12), file.last_modified_time.datepart());
+            assert_eq!(le32(b, 14), file.crc32);
+            assert_eq!(le16(b, 26) as usize, NLEN);
+            let mut i = 0;
+            while i < NLEN {
+                assert_eq!(b[30 + i], nb[i]);
+                i += 1;
+            }
+            if file.large_file {
+                // ZIP64: 32-bit fields carry the sentinel, the ZIP64 record carries both sizes,
+                // original size first (APPNOTE 4.5.3)
+                assert_eq!(le32(b, 18), 0xFFFF_FFFF);
+                assert_eq!(le32(b, 22), 0xFFFF_FFFF);
+                assert_eq!(le16(b, 28), 20);
+                let e = 30 + NLEN;
+                assert_eq!(le16(b, e), 0x0001);
+                assert_eq!(le16(b, e + 2), 16);
+                assert_eq!(le64(b, e + 4), file.uncompressed_size);
+                assert_eq!(le64(b, e + 12), file.compressed_size);
+                assert_eq!(sink.end, 30 + NLEN + 20);
+                assert!(le16(b, 4) >= 45 || !(file.uncompressed_size > THR || file.compressed_size > THR));
+            } else {
+                assert_eq!(le32(b, 18), file.compressed_size as u32);
+                assert_eq!(le32(b, 22), file.uncompressed_size as u32);
+                assert_eq!(le16(b, 28), 0);
+                assert_eq!(sink.end, 30 + NLEN);
+            }
+            kani::cover!(file.large_file && file.uncompressed_size > THR);
+            kani::cover!(!file.large_file && (NLEN == 1 || flags & (1 << 11) != 0));
+            kani::cover!(!file.large_file && flags & (1 << 11) == 0);
+            core::mem::forget(r);
+            core::mem::forget(file);
+        }
+    };
+}
+/// C02 local file header layout (APPNOTE 4.3.7) for every value of every scalar field
+/// (flags, method incl. undecodable numbers, DOS time/date, CRC, 64-bit sizes, large_file) and a
+/// symbolic 1-byte ASCII name: signature, flag bit 11 <=> non-ASCII name, bit 0 <=> encrypted,
+/// lengths, name bytes; with large_file the sentinels and the 20-byte ZIP64 record in APPNOTE
+/// order.
+// @h prop=C02,C08,C19 tier=quick t=600 mem=8 name=c02_local_header_name1
+c02_local_header!(c02_local_header_name1, ascii1(), 1);
+/// C02 local header, 2-byte names (two ASCII bytes or one two-byte UTF-8 scalar: UTF-8 flag).
+// @h prop=C02,C08,C19 tier=quick t=600 mem=8 name=c02_local_header_name2
+c02_local_header!(c02_local_header_name2, name2(), 2);
+
+/// Reference decoding of the central ZIP64 extended-information record the way APPNOTE 4.5.3
+/// readers (and CPython's zipfile) do it: when a 0x0001 record is present, each 32-bit field
+/// that holds the sentinel 0xFFFFFFFF takes its value from the record, in the fixed order
+/// original size, compressed size, header offset; without a record the 32-bit fields stand.
+/// Returns None when a record is present but too short for the sentinels present.
+fn strict_zip64_decode(b: &[u8], extra_at: usize, extra_len: usize, u32s: (u32, u32, u32)) -> Option<(u64, u64, u64, usize)> {
+    let (mut usz, mut csz, mut off) = (u32s.0 as u64, u32s.1 as u64, u32s.2 as u64);
+    if extra_len < 4 || le16(b, extra_at) != 0x0001 {
+        return Some((usz, csz, off, 0));
+    }
+    let reclen = le16(b, extra_at + 2) as usize;
+    if 4 + reclen > extra_len {
+        return None;
+    }
+    let need = (u32s.0 == 0xFFFF_FFFF) as usize * 8 + (u32s.1 == 0xFFFF_FFFF) as usize * 8 + (u32s.2 == 0xFFFF_FFFF) as usize * 8;
+    if reclen < need {
+        return None;
+    }
+    let mut p = extra_at + 4;
+    if u32s.0 == 0xFFFF_FFFF {
+        usz = le64(b, p);
+        p += 8;
+    }
+    if u32s.1 == 0xFFFF_FFFF {
+        csz = le64(b, p);
+        p += 8;
+    }
+    if u32s.2 == 0xFFFF_FFFF {
+        off = le64(b, p);
+    }
+    Some((usz, csz, off, 4 + reclen))
+}
+
+macro_rules! c02_central_header {
+    ($name:ident, $mk:expr, $nlen:expr, $xlen:expr) => {
+        #[kani::proof]
+        #[kani::unwind(30)]
+        fn $name() {
+            const NLEN: usize = $nlen;
+            const XLEN: usize = $xlen;
+            let xb: [u8; XLEN] = kani::any();
+            let file = any_zfd($mk, xb.to_vec());
+            let mut sink = Sink::<96>::new();
+            let r = write_central_directory_header(&mut sink, &file);
+            assert!(r.is_ok());
+            assert!(!sink.overflow);
+            let b = &sink.buf;
+            let nb = file.file_name.as_bytes();
+            assert_eq!(le32(b, 0), SIG_CENTRAL);
+            // version made by: upper byte = host system, lower = spec version
+            assert_eq!(le16(b, 4), ((file.system as u16) << 8) | file.version_made_by as u16);
+            let flags = le16(b, 8);
+            assert_eq!(flags & (1 << 11) != 0, !name_is_ascii(nb));
+            assert_eq!(flags & 1 != 0, file.encrypted);
+            assert_eq!(flags & !((1 << 11) | 1), 0);
+            #[allow(deprecated)]
+            let m = file.compression_method.to_u16();
+            assert_eq!(le16(b, 10), m);
+            assert_eq!(le16(b, 12), file.last_modified_time.timepart());
+            assert_eq!(le16(b, 14), file.last_modified_time.datepart());
+            assert_eq!(le32(b, 16), file.crc32);
+            assert_eq!(le16(b, 28) as usize, NLEN);
+            let elen = le16(b, 30) as usize;
+            assert_eq!(le16(b, 32), 0); // comment length
+            assert_eq!(le16(b, 34), 0); // disk number start
+            assert_eq!(le32(b, 38), file.external_attributes);
+            let mut i = 0;
+            while i < NLEN {
+                assert_eq!(b[46 + i], nb[i]);
+                i += 1;
+            }
+            assert_eq!(sink.end, 46 + NLEN + elen);
+            // ZIP64: a strict reader must recover every value exactly
+            let f = (le32(b, 24), le32(b, 20), le32(b, 42));
+            let dec = strict_zip64_decode(b, 46 + NLEN, elen, f);
+            assert!(dec.is_some(), "a 32-bit field holds the ZIP64 sentinel but the ZIP64 record present does not carry its value");
+            let (usz, csz, off, z64len) = dec.unwrap();
+            assert_eq!(usz, file.uncompressed_size);
+            assert_eq!(csz, file.compressed_size);
+            assert_eq!(off, file.header_start);
+            // the caller's extra data follows the ZIP64 record verbatim
+            assert_eq!(elen, z64len + XLEN);
+            let mut i = 0;
+            while i < XLEN {
+                assert_eq!(b[46 + NLEN + z64len + i], xb[i]);
+                i += 1;
+            }
+            // version needed >= 4.5 whenever a ZIP64 value is present
+            if file.uncompressed_size > THR || file.compressed_size > THR || file.header_start > THR {
+                assert!(le16(b, 6) >= 45);
+            }
+            kani::cover!(z64len == 28);
+            kani::cover!(z64len == 12);
+            kani::cover!(z64len == 0);
+            kani::cover!(file.compressed_size == THR);
+            core::mem::forget(r);
+            core::mem::forget(file);
+        }
+    };
+}
+/// C02/C08 central directory header (APPNOTE 4.3.12) for every value of every scalar field:
+/// fixed fields at their offsets; a strict reader (value taken from the ZIP64 record iff the
+/// 32-bit field is 0xFFFFFFFF, APPNOTE order) recovers uncompressed size, compressed size and
+/// local-header offset EXACTLY for all 2^192 combinations, including 0xFFFFFFFE/FF/1_0000_0000;
+/// version needed >= 45 with ZIP64 values. 1-byte name, no caller extra data.
+// @h prop=C02,C08,C19 tier=quick t=900 mem=10 name=c02_central_header_n1_x0
+c02_central_header!(c02_central_header_n1_x0, ascii1(), 1, 0);
+/// C02/C08/C17 central header with a 2-byte name and 4 bytes of caller extra data (stored
+/// verbatim after the ZIP64 record).
+// @h prop=C02,C08,C17,C19 tier=quick t=900 mem=10 name=c02_central_header_n2_x4
+c02_central_header!(c02_central_header_n2_x4, name2(), 2, 4);
+
+// =============================================================================================
+// API level: ZipWriter<Sink> driven through its public interface
+// =============================================================================================
+
+fn opts(perm: u32, dt: DateTime, large: bool) -> FileOptions {
+    FileOptions::default()
+        .compression_method(CompressionMethod::Stored)
+        .last_modified_time(dt)
+        .unix_permissions(perm)
+        .large_file(large)
+}
+
+/// Judge one finished single-entry archive in `b[..end]` against APPNOTE offsets.
+/// Layout expected: local header (30 + nlen [+20]) | data | central (46 + nlen) | EOCD (22 + clen).
+#[allow(clippy::too_many_arguments)]
+fn judge_single(
+    b: &[u8],
+    end: usize,
+    name: &[u8],
+    content: &[u8],
+    clen: usize,
+    large: bool,
+    date: u16,
+    time: u16,
+    mode: u32,
+) {
+    let nlen = name.len();
+    let dlen = content.len();
+    let lx = if large { 20 } else { 0 };
+    let data_at = 30 + nlen + lx;
+    let cd_at = data_at + dlen;
+    let eocd_at = cd_at + 46 + nlen;
+    assert_eq!(end, eocd_at + 22 + clen);
+    let crc = ref_crc32(content, dlen);
+    // local header
+    assert_eq!(le32(b, 0), SIG_LOCAL);
+    assert_eq!(le16(b, 8), 0); // stored
+    assert_eq!(le16(b, 10), time);
+    assert_eq!(le16(b, 12), date);
+    assert_eq!(le32(b, 14), crc);
+    if large {
+        assert_eq!(le32(b, 18), 0xFFFF_FFFF);
+        assert_eq!(le32(b, 22), 0xFFFF_FFFF);
+        assert_eq!(le16(b, 30 + nlen), 1);
+        assert_eq!(le16(b, 32 + nlen), 16);
+        assert_eq!(le64(b, 34 + nlen), dlen as u64);
+        assert_eq!(le64(b, 42 + nlen), dlen as u64);
+    } else {
+        assert_eq!(le32(b, 18), dlen as u32);
+        assert_eq!(le32(b, 22), dlen as u32);
+    }
+    assert_eq!(le16(b, 26) as usize, nlen);
+    assert_eq!(le16(b, 28) as usize, lx);
+    let mut i = 0;
+    while i < nlen {
+        assert_eq!(b[30 + i], name[i]);
+        assert_eq!(b[cd_at + 46 + i], name[i]);
+        i += 1;
+    }
+    let mut i = 0;
+    while i < dlen {
+        assert_eq!(b[data_at + i], content[i]);
+        i += 1;
+    }
+    // central header agrees with local header
+    assert_eq!(le32(b, cd_at), SIG_CENTRAL);
+    assert_eq!(le16(b, cd_at + 4) >> 8, 3); // unix
+    assert_eq!(le16(b, cd_at + 8), le16(b, 6)); // flags
+    assert_eq!(le16(b, cd_at + 10), 0);
+    assert_eq!(le16(b, cd_at + 12), time);
+    assert_eq!(le16(b, cd_at + 14), date);
+    assert_eq!(le32(b, cd_at + 16), crc);
+    assert_eq!(le32(b, cd_at + 20), dlen as u32);
+    assert_eq!(le32(b, cd_at + 24), dlen as u32);
+    assert_eq!(le16(b, cd_at + 28) as usize, nlen);
+    assert_eq!(le16(b, cd_at + 30), 0);
+    assert_eq!(le16(b, cd_at + 32), 0);
+    assert_eq!(le32(b, cd_at + 38) >> 16, mode);
+    assert_eq!(le32(b, cd_at + 42), 0); // offset of local header
+    // end of central directory
+    assert_eq!(le32(b, eocd_at), SIG_EOCD);
+    assert_eq!(le16(b, eocd_at + 4), 0);
+    assert_eq!(le16(b, eocd_at + 6), 0);
+    assert_eq!(le16(b, eocd_at + 8), 1);
+    assert_eq!(le16(b, eocd_at + 10), 1);
+    assert_eq!(le32(b, eocd_at + 12) as usize, 46 + nlen);
+    assert_eq!(le32(b, eocd_at + 16) as usize, cd_at);
+    assert_eq!(le16(b, eocd_at + 20) as usize, clen);
+}
+
+macro_rules! c01_write_file {
+    ($name:ident, $dlen:expr, $split:expr, $clen:expr, $large:expr, $unwind:expr) => {
+        #[kani::proof]
+        #[kani::unwind($unwind)]
+        #[kani::stub(time::OffsetDateTime::now_utc, crate::verif_kit::stub_now_utc)]
+        #[kani::stub(crc32fast::Hasher::internal_new_specialized, crate::verif_kit::stub_crc_specialized)]
+        fn $name() {
+            const DLEN: usize = $dlen;
+            const SPLIT: usize = $split;
+            const CLEN: usize = $clen;
+            let content: [u8; DLEN] = kani::any();
+            let comment: [u8; CLEN] = kani::any();
+            let date: u16 = kani::any();
+            let time: u16 = kani::any();
+            let perm: u32 = kani::any();
+            let large: bool = $large; // layout (hence every offset) is concrete per variant
+            let nm = ascii1();
+            let nb = [nm.as_bytes()[0]];
+            let mut sink = Sink::<128>::new();
+            let mut w = ZipWriter::new(sink.handle());
+            w.set_raw_comment(comment.to_vec());
+            match w.start_file(nm, opts(perm, DateTime::from_msdos(date, time), large)) {
+                Ok(()) => {}
+                Err(e) => {
+                    core::mem::forget(e);
+                    assert!(false, "start_file failed");
+                }
+            }
+            // caller-side split of the payload (C09 writer half)
+            match w.write_all(&content[..SPLIT]) {
+                Ok(()) => {}
+                Err(e) => {
+                    core::mem::forget(e);
+                    assert!(false, "write failed");
+                }
+            }
+            match w.write_all(&content[SPLIT..]) {
+                Ok(()) => {}
+                Err(e) => {
+                    core::mem::forget(e);
+                    assert!(false, "write failed");
+                }
+            }
+            match w.finish() {
+                Ok(_) => {}
+                Err(e) => {
+                    core::mem::forget(e);
+                    assert!(false, "finish failed");
+                    return;
+                }
+            };
+            core::mem::forget(w);
+            assert!(!sink.overflow);
+            judge_single(&sink.buf, sink.end, &nb, &content, CLEN, large, date, time, 0o100000 | (perm & 0o777));
+            kani::cover!(sink.end > 0);
+        }
+    };
+}
+/// C01/C02/C09 public API: new, set_raw_comment, start_file (symbolic ASCII 1-byte name, any DOS
+/// date/time words, any permission word, large_file flag), write_all of a 2-byte symbolic
+/// payload in two calls (1+1), finish; the produced bytes are judged by the APPNOTE offset
+/// reference: local header == central header (name, flags, method, time, CRC = bitwise
+/// reference CRC of the payload, sizes), data in place, offsets/sizes/counts exact, ZIP64 local
+/// record when large_file, mode = S_IFREG | perm&0o777, comment stored. 1-byte comment.
+// @h prop=C01,C02,C09,C18 tier=quick t=1200 mem=16 name=c01_write_file_d2_c1
+c01_write_file!(c01_write_file_d2_c1, 2, 1, 1, false, 10);
+/// C01/C02/C08 as above with large_file(true): 20-byte local ZIP64 record, back-patched sizes.
+// @h prop=C01,C02,C08,C18 tier=quick t=1200 mem=16 name=c01_write_file_d2_c1_large
+c01_write_file!(c01_write_file_d2_c1_large, 2, 1, 1, true, 10);
